@@ -13,7 +13,8 @@ from ..symex import (Alt, CondI, Const, CtxV, Hole, JoinP, ListV, Lit, One, Opaq
 from .c09 import dialect_of
 from .c12 import peel
 
-TOKENS = ["ON DUPLICATE KEY UPDATE", "DO UPDATE SET", "DO NOTHING", "ON CONFLICT", "INSERT IGNORE INTO", "INSERT INTO", "REPLACE INTO",
+LOCK_FORMS = ["FOR NO KEY UPDATE", "FOR KEY SHARE", "FOR SHARE"]     # spellings of the row-locking clause besides FOR UPDATE
+TOKENS = LOCK_FORMS + ["ON DUPLICATE KEY UPDATE", "DO UPDATE SET", "DO NOTHING", "ON CONFLICT", "INSERT IGNORE INTO", "INSERT INTO", "REPLACE INTO",
           "WITH ROLLUP", "WITH TOTALS", "WITH RECURSIVE", "WITH TIES", "WITH", "SELECT", "DISTINCT ON", "DISTINCT", "TOP", "INTO", "FROM", "FORCE INDEX", "USE INDEX",
           "PREWHERE", "WHERE", "GROUP BY", "HAVING", "ORDER BY", "LIMIT", "OFFSET", "FETCH NEXT", "FOR UPDATE", "RETURNING", "UPDATE", "SET",
           "DELETE", "VALUES", "INSERT", "REPLACE"]
@@ -56,6 +57,8 @@ def tokens_of(v):
                 elif t == "INTO" and state["after"] == "INSERT":
                     state["after"] = None
                     continue
+                if t in LOCK_FORMS:
+                    t = "FOR UPDATE"       # one clause (the locking clause) whatever lock strength it asks for
                 if t == "WITH TIES":
                     continue        # T-SQL: a modifier of TOP (SELECT TOP (n) WITH TIES ...), not a clause of its own
                 if t in ("WITH ROLLUP", "WITH TOTALS"):
@@ -461,6 +464,13 @@ class _Dep:
                             for a in e.args:
                                 ad |= _attrs_in(a, selfn, local) | call_deps(a, ctrl_now)
                             write(v.attr, ad, ctrl_now, "mutate")
+                        elif isinstance(v, ast.Name) and v.id != selfn:
+                            # a local list filled step by step (`sources.append(...)` in a loop over self._from) depends on
+                            # what is appended and on the conditions under which it is
+                            ad = set(ctrl_now)
+                            for a in e.args:
+                                ad |= _attrs_in(a, selfn, local) | call_deps(a, ctrl_now)
+                            local[v.id] = local.get(v.id, set()) | ad
                 elif isinstance(s, ast.Return):
                     if s.value is not None:
                         st["ret"] |= _attrs_in(s.value, selfn, local) | call_deps(s.value, ctrl_now) | ctrl_now
@@ -602,6 +612,11 @@ def _accumulation(program: Program, run: Run) -> None:
 def _couplings(program: Program, run: Run) -> None:
     joiner = program.find_cls("Joiner")
     classes = [program.cls(n) for n in BUILDER_CLASSES]
+    # the DDL / LOAD builders are statements too (CREATE TABLE's temporary / unique / primary_key ... address different clauses)
+    term_ = program.cls("Term")
+    for k_ in program.all_classes():
+        if k_ not in classes and k_.resolve("get_sql") is not None and not k_.is_subclass_of(term_) and sum(1 for f_ in k_.methods.values() if f_.is_builder) >= 2:
+            classes.append(k_)
     per = {}
     for c in classes:
         names = []
